@@ -41,6 +41,7 @@ from . import sites as S
 
 LEVEL = "proof"
 EPS_NATIVE = 1e-8
+EPS_NATIVE_OVERRIDE = [None]  # CC closed forms are replayed at Q2/m2 = 1e9 with a tighter tolerance (see _compare)
 ORDER = ("LO", "NLO", "NNLO", "N3LO")
 TAU = 1e-10
 HQ_NAME = {4: "charm", 5: "bottom", 6: "top"}
@@ -96,7 +97,7 @@ def _unit_functional(part, z):
 
     lo = math.log(1e-14)
     hi = math.log(1.0 - z)
-    edges = [lo] + [p for p in (math.log(EPS_NATIVE * k) for k in (1e-3, 1e-2, 1e-1, 1, 10, 100, 1e3)) if lo < p < hi] + [hi]
+    edges = [lo] + [p for p in (math.log((EPS_NATIVE_OVERRIDE[0] or EPS_NATIVE) * k) for k in (1e-3, 1e-2, 1e-1, 1, 10, 100, 1e3)) if lo < p < hi] + [hi]
     integ = 0.0
     import warnings
 
@@ -127,7 +128,11 @@ def _compare(sy, hs, as_, pre, tag=""):
     from pvc.limit import subst
     from pvc.ratfun import Normaliser
 
-    opts = {"tol": TAU, "replay_tol": 2e-4, "nocross": True, "need_replay": True}
+    # native replay: the in-repo CC closed forms keep ~1e-7 at Q2/m2 = 1e9, where the genuine
+    # O(eps log^2 eps) remainder is 4e-7: a relative 5e-6 decides; NC (LeProHQ, massive NC intrinsic
+    # with its cancellations) is replayed at 1e8 with 2e-4
+    cc = "/CC/" in tag
+    opts = {"tol": TAU, "replay_tol": 5e-6 if cc else 2e-4, "nocross": True, "need_replay": True}
     out = [("same partons", sorted(hs), sorted(as_))] if (hs or as_) else []
     done = {}
     for pid in sorted(set(hs) & set(as_)):
@@ -237,7 +242,7 @@ def _binds(sy):
 
 
 def _set_mass(sy):
-    eps = EPS_NATIVE if sy.is_numeric else sy.eps
+    eps = (EPS_NATIVE_OVERRIDE[0] or EPS_NATIVE) if sy.is_numeric else sy.eps
     sy.m2c = sy.m2b = sy.m2t = eps * sy.Q2
     return eps
 
@@ -265,6 +270,7 @@ def heavy_case(process, kind, ihq, nf, order, pto_evol):
         from yadism.coefficient_functions import heavy
         from yadism.coefficient_functions.asy import kernels as asyk
 
+        EPS_NATIVE_OVERRIDE[0] = 1e-9 if process == "CC" else None
         _set_mass(sy)
         cfg = _cfg(sy, process, pto_evol)
         esf = H.FakeESF(sy.x, sy.Q2, H.obs_name(kind, HQ_NAME[ihq]), cfg)
@@ -287,6 +293,7 @@ def intrinsic_case(process, kind, ihq, nf, order, pto_evol):
         from yadism.coefficient_functions import intrinsic
         from yadism.coefficient_functions.asy import kernels as asyk
 
+        EPS_NATIVE_OVERRIDE[0] = 1e-9 if process == "CC" else None
         _set_mass(sy)
         cfg = _cfg(sy, process, pto_evol)
         esf = H.FakeESF(sy.x, sy.Q2, H.obs_name(kind, HQ_NAME[ihq]), cfg)
@@ -529,7 +536,7 @@ def sec_missing_bounded(rep, tier):
     """BOUNDED stand-in for the coefficient functions of the 'missing' channel (LeProHQ dq1 + Adler
     spline: numerical, no contract reaches them): the real massive kernel of generate_missing and the
     real asymptotic kernels of generate_missing_asy are evaluated with floats at Q2/m2 = 1e4 and 1e6,
-    z in {0.1, 0.5}: (a) reg+sing pointwise, (b) T[1_[z,1]] = loc(z) + int_z^1 reg (fixes the local
+    z in {0.01, 0.1, 0.5} (0.01 at Q2/m2 = 1e6 probes eta = 2.5e7, just below the eta = 1e8 cut-off of the code): (a) reg+sing pointwise, (b) T[1_[z,1]] = loc(z) + int_z^1 reg (fixes the local
     term).  Each must agree to 2e-3 of its size at 1e6 and not be worse than at 1e4.  Never counted
     as discharged."""
     global EPS_NATIVE
@@ -551,13 +558,13 @@ def sec_missing_bounded(rep, tier):
                 ak = asyk.generate_missing_asy(esf, 3, 4, 2)
                 hs, as_ = _kernel_sum(sy, hk, 2), _kernel_sum(sy, ak, 2)
                 pid = 1
-                for z in (0.1, 0.5):
+                for z in (0.01, 0.1, 0.5):
                     res[("rs", z, eps)] = (hs[pid]["reg"](z) + hs[pid]["sing"](z), as_[pid]["reg"](z) + as_[pid]["sing"](z))
                     res[("T", z, eps)] = (_unit_functional(hs[pid], z), _unit_functional(as_[pid], z))
             for q, label in (("rs", "reg+sing-pointwise"), ("T", "T[1_[z,1]]-local-term")):
                 rep.cases += 1
                 bad = []
-                for z in (0.1, 0.5):
+                for z in (0.01, 0.1, 0.5):
                     d4 = abs(res[(q, z, 1e-4)][0] - res[(q, z, 1e-4)][1])
                     h6, a6 = res[(q, z, 1e-6)]
                     d6 = abs(h6 - a6)
